@@ -94,40 +94,40 @@ type vfSettings struct {
 	OSGroup  string
 	OSUser   string
 
-	LogFile                                 string
-	LogMaxBackups, LogMaxSize, LogMaxAge    int
-	LogCompress, LogLocalTime, LogVerbose   bool
-	DNSPort, Ratelimit, CacheSize           int
-	Bootstrap, DNSBindHosts                 []string
-	LocalDomain                             string
-	Upstreams, LocalPTR                     []vfUpstream
-	QlogEnabled, QlogFileEnabled            bool
-	QlogDays, QlogMem                       int
-	QlogIgnored, StatsIgnored               []string
-	QlogExtra, StatsExtra                   vfMap
-	StatsEnabled                            bool
-	StatsDays                               int
-	EDNS, EDNSUseCustom                     bool
-	EDNSCustomIP                            string
-	SafeSearch                              bool
-	SSFlags                                 map[string]bool
-	RDNS                                    bool
-	SrcWHOIS, SrcARP, SrcDHCP, SrcHosts     bool
-	Blocked                                 []string
-	BlockedTZ                               string
-	Filt                                    vfMap // the 16 plain keys that step 26 moves from dns to filtering
-	FiltExtra                               vfMap
-	AllServers, FastestAddr                 bool
-	UpstreamMode                            string
-	SafePatterns                            []string
-	DNSExtra, TopExtra, DHCPExtra, TLS      vfMap
-	Clients                                 []vfClient
-	DHCPEnabled                             bool
-	DHCPIface                               string
+	LogFile                                   string
+	LogMaxBackups, LogMaxSize, LogMaxAge      int
+	LogCompress, LogLocalTime, LogVerbose     bool
+	DNSPort, Ratelimit, CacheSize             int
+	Bootstrap, DNSBindHosts                   []string
+	LocalDomain                               string
+	Upstreams, LocalPTR                       []vfUpstream
+	QlogEnabled, QlogFileEnabled              bool
+	QlogDays, QlogMem                         int
+	QlogIgnored, StatsIgnored                 []string
+	QlogExtra, StatsExtra                     vfMap
+	StatsEnabled                              bool
+	StatsDays                                 int
+	EDNS, EDNSUseCustom                       bool
+	EDNSCustomIP                              string
+	SafeSearch                                bool
+	SSFlags                                   map[string]bool
+	RDNS                                      bool
+	SrcWHOIS, SrcARP, SrcDHCP, SrcHosts       bool
+	Blocked                                   []string
+	BlockedTZ                                 string
+	Filt                                      vfMap // the 16 plain keys that step 26 moves from dns to filtering
+	FiltExtra                                 vfMap
+	AllServers, FastestAddr                   bool
+	UpstreamMode                              string
+	SafePatterns                              []string
+	DNSExtra, TopExtra, DHCPExtra, TLS        vfMap
+	Clients                                   []vfClient
+	DHCPEnabled                               bool
+	DHCPIface                                 string
 	DHCPGateway, DHCPMask, DHCPStart, DHCPEnd string
-	DHCPLease, DHCPICMP                     int
-	Filters                                 []vfFilter
-	UserRules                               []string
+	DHCPLease, DHCPICMP                       int
+	Filters                                   []vfFilter
+	UserRules                                 []string
 }
 
 var vfSSKeys = []string{"bing", "duckduckgo", "google", "pixabay", "yandex", "youtube"}
